@@ -74,4 +74,23 @@ theorem registry_binding : Facts.registryBinding = [
 example : activeAfter 2 [5, 1] = false ∧ activeAfter 2 [1, 5, 5] = true ∧ activeAfter 0 [0] = true ∧
     activeAfter 4294967295 [4294967294, 4294967295] = true := by decide
 
+/-- FULL (binding of the price, regenerated from the factory's source by go/ast on every run): each constructor call in
+    the factory passes the `BuiltInCost` entry of the function's own name -/
+theorem factory_price_binding : Facts.factoryGasField =
+    [("NewClaimDeveloperRewardsFunc", "ClaimDeveloperRewards"),
+     ("NewChangeOwnerAddressFunc", "ChangeOwnerAddress"),
+     ("NewSaveUserNameFunc", "SaveUserName"),
+     ("NewSaveKeyValueStorageFunc", "SaveKeyValue"),
+     ("NewESDTTransferFunc", "ESDTTransfer"),
+     ("NewESDTBurnFunc", "ESDTBurn"),
+     ("NewESDTLocalBurnFunc", "ESDTLocalBurn"),
+     ("NewESDTLocalMintFunc", "ESDTLocalMint"),
+     ("NewESDTNFTAddQuantityFunc", "ESDTNFTAddQuantity"),
+     ("NewESDTNFTBurnFunc", "ESDTNFTBurn"),
+     ("NewESDTNFTCreateFunc", "ESDTNFTCreate"),
+     ("NewESDTNFTTransferFunc", "ESDTNFTTransfer"),
+     ("NewESDTNFTUpdateAttributesFunc", "ESDTNFTUpdateAttributes"),
+     ("NewESDTNFTAddUriFunc", "ESDTNFTAddURI"),
+     ("NewESDTNFTMultiTransferFunc", "ESDTNFTMultiTransfer")] := by decide
+
 end C18
